@@ -9,3 +9,4 @@ void h_createReducedNode(void) { struct forest *f; struct unpacked_node *u; stru
 void h_unlinkAllDown(void) { struct forest *f; struct unpacked_node *u; unsigned w_i = nondet_unsigned(); H_GHOSTS(); forest__unlinkAllDown(f, u, w_i); CANARY(); }
 
 void h_deleteNode(void) { struct forest *f; node_handle w_p = nondet_int(); H_GHOSTS(); forest__deleteNode(f, w_p); CANARY(); }
+void h_modifyReducedNodeInPlace(void) { struct forest *f; struct unpacked_node *u; node_handle w_p = nondet_int(); H_GHOSTS(); forest__modifyReducedNodeInPlace(f, u, w_p); CANARY(); }
